@@ -138,6 +138,25 @@ Definition narrow_isinst (P : prog) (sm : bool) (t : ty) (k : cref) : res (ty * 
        else Ok (TNever, t)
   else Ok (yes, no).
 
+(* isinstance(x, (K1, ..., Kn)): conditional_types with several type ranges, followed by the read-time meet with the
+   declared type (narrow_declared_type), per union item: an item below some Ki is kept; otherwise the Ki below the
+   item replace it in the yes-branch and the item stays in the no-branch *)
+Definition yes_item_l (P : prog) (Ks : list ty) (it : ty) : list ty :=
+  if existsb (fun K => is_subtype P it K) Ks then [it] else filter (fun K => is_subtype P K it) Ks.
+Definition no_item_l (P : prog) (Ks : list ty) (it : ty) : list ty :=
+  if existsb (fun K => is_subtype P it K) Ks then [] else [it].
+
+Definition narrow_isinst_l (P : prog) (sm : bool) (t : ty) (ks : list cref) : res (ty * ty) :=
+  let Ks := map ty_of_cref ks in
+  if sm && negb (forallb (fun i => existsb (fun K => is_subtype P i K) Ks
+                                   || forallb (fun K => is_subtype P K i || disjoint P i K) Ks) (items t)) then Unsup 1 else
+  let yes := mk_union P (flat_map (yes_item_l P Ks) (items t)) in
+  let no := mk_union P (flat_map (no_item_l P Ks) (items t)) in
+  if is_never yes
+  then if forallb instance_like (items t) && negb (is_never t) then Unsup 2 (* ad-hoc intersection *)
+       else Ok (TNever, t)
+  else Ok (yes, no).
+
 (* ---------------------------------------------------------------- binder state *)
 Definition decls := list (id * ty).
 Definition frame := list (id * (ty * bool)).       (* narrowed type, from_assignment *)
@@ -301,6 +320,16 @@ Fixpoint infer (P : prog) (sm : bool) (d : decls) (fr : frame) (e : expr) {struc
         if cref_ok P k then
           match e1 with
           | EVar x => bind (narrow_isinst P sm (fst x1) k) (fun yn =>
+                        Ok (TBool, ((match fst x1 with TUnion _ => mk_map x (fst yn) | _ => mk_map_chg P x (fst x1) (fst yn) end),
+                                    mk_map x (snd yn))))
+          | _ => Ok (TBool, (Some [], Some []))
+          end
+        else Rej None)
+  | EIsInstL e1 ks =>
+      bind (infer P sm d fr e1) (fun x1 =>
+        if forallb (cref_ok P) ks then
+          match e1 with
+          | EVar x => bind (narrow_isinst_l P sm (fst x1) ks) (fun yn =>
                         Ok (TBool, ((match fst x1 with TUnion _ => mk_map x (fst yn) | _ => mk_map_chg P x (fst x1) (fst yn) end),
                                     mk_map x (snd yn))))
           | _ => Ok (TBool, (Some [], Some []))
@@ -524,16 +553,14 @@ Fixpoint loop_iter (P : prog) (sm : bool) (pass : passfn) (n : nat) (d : decls) 
 
 Definition jump_opts (l : list frame) : list (option frame) := map Some l.
 
+(* checker.analyze_iterable_item_type: range(e) yields int; a (non-empty) tuple yields the simplified union of its
+   items; a str yields str *)
 Definition iter_item_ty (P : prog) (rng : bool) (te : ty) : res ty :=
   if rng then (if is_subtype P te TInt then Ok TInt else Rej None)
   else match te with
-       | TTuple (t0 :: ts) =>
-           match mk_union P (t0 :: ts) with
-           | TUnion _ => Unsup 9                (* mypy joins the items (possibly to `object`) *)
-           | t => Ok t
-           end
+       | TTuple (t0 :: ts) => Ok (mk_union P (t0 :: ts))
        | TTuple [] => Unsup 9
-       | TStr => Unsup 9
+       | TStr => Ok TStr
        | TUnion _ => Unsup 9
        | _ => Rej None                         (* not iterable *)
        end.
@@ -735,7 +762,7 @@ Fixpoint expr_vars (e : expr) : list id :=
   | ECallF _ args => (fix go (l : list expr) := match l with [] => [] | a :: r => expr_vars a ++ go r end) args
   | ECallM e1 _ args => expr_vars e1 ++ (fix go (l : list expr) := match l with [] => [] | a :: r => expr_vars a ++ go r end) args
   | ETuple es => (fix go (l : list expr) := match l with [] => [] | a :: r => expr_vars a ++ go r end) es
-  | EAttr e1 _ | EIsNone e1 | EIsNotNone e1 | EIsInst e1 _ | ENot e1 | EIndex e1 _ | EReveal _ e1 => expr_vars e1
+  | EAttr e1 _ | EIsNone e1 | EIsNotNone e1 | EIsInst e1 _ | EIsInstL e1 _ | ENot e1 | EIndex e1 _ | EReveal _ e1 => expr_vars e1
   | EBin _ e1 e2 | EAnd e1 e2 | EOr e1 e2 => expr_vars e1 ++ expr_vars e2
   | ECond c e1 e2 => expr_vars c ++ expr_vars e1 ++ expr_vars e2
   | _ => []
@@ -985,8 +1012,25 @@ Definition fields_present (P : prog) (cd : cdecl) : bool :=
                     | None => true
                     end) (c_mro cd).
 
+Fixpoint ids_eqb (a b : list id) : bool :=
+  match a, b with
+  | [], [] => true
+  | x :: a', y :: b' => Nat.eqb x y && ids_eqb a' b'
+  | _, _ => false
+  end.
+
+(* the MRO is the class followed by the MRO of one base: single inheritance, where the nearest definition is the
+   only one mypy compares a redeclared attribute with *)
+Definition single_chain (P : prog) (cd : cdecl) : bool :=
+  match c_mro cd with
+  | _ :: b :: rest => ids_eqb (mro_of P b) (b :: rest)
+  | _ => true
+  end.
+
 Definition check_class (P : prog) (strict : bool) (c : id) (cd : cdecl) : res unit :=
   if negb (fields_present P cd) then Unsup 12   (* __init__ not initialising an inherited attribute: not MiniPy *)
+  else if negb strict && class_plain_ok P c cd && negb (single_chain P cd || class_sem_ok P c cd) then Unsup 14
+       (* multiple inheritance: mypy compares with every definition up to the last immediate base, which the MRO alone does not identify *)
   else
   with_label (c_line cd)
     (if distinct (map fst (c_fields cd)) && forallb (fun af => wf_ty P (snd af)) (c_fields cd)
